@@ -54,7 +54,12 @@ func jsonString(r *common.Rand, n int) string {
 	var sb strings.Builder
 	sb.WriteByte('"')
 	for sb.Len() < n {
-		switch r.Intn(12) {
+		switch r.Intn(13) {
+		case 12:
+			// grapheme clusters of several code points (the caret column is the display width of
+			// clusters, not the sum over code points): skin tone, ZWJ family, flag, keycap,
+			// variation selector, combining marks
+			sb.WriteString(common.Pick(r, []string{"\U0001F44D\U0001F3FD", "\U0001F468\u200D\U0001F469\u200D\U0001F467", "\U0001F1EF\U0001F1F5", "1\uFE0F\u20E3", "\u2764\uFE0F", "e\u0301\u0323", "\U0001F469\U0001F3FB\u200D\U0001F4BB"}))
 		case 0:
 			sb.WriteString("\u00e9")
 		case 1:
